@@ -228,7 +228,7 @@ func c15AltText(g *c15Gram, alt []c15Sym) string {
 }
 
 type c15Cfg struct {
-	noInvLeft    bool // avoid `&` whose left operand may evaluate to a co-finite set ([C25-closure-buf-alias])
+	noInvLeft    bool // avoid `&` whose left operand may evaluate to a co-finite set ([C15-intersect-alias])
 	noFwdAlias   bool // avoid `set(name)` with a named set declared later or itself ([C15-forward-alias])
 	noInlineRec  bool // inline set(...) must not reach a recursive named set ([C15-inline-recursive-crash])
 	noShared     bool // no grammar with both an extracted nonterminal (inline set) and a reference to a named set ([C15-rearrange-shared])
@@ -852,20 +852,20 @@ func c15(c *Ctx) {
 	cfg := c15Cfg{}
 	if got, _ := c15ProbeSet("%generate w = set(~'c' & ('a' | 'b' | 'c'));\nS : 'a' S | 'b' ;\n", "w"); fmt.Sprint(got) != "[2 3]" {
 		cfg.noInvLeft = !findings
-		c.Notes = append(c.Notes, fmt.Sprintf("probe [C25-closure-buf-alias] FAILED: set(~'c' & ('a' | 'b' | 'c')) = %v, expected [2 3]; `&` with a possibly co-finite left operand is %s", got,
+		c.Notes = append(c.Notes, fmt.Sprintf("probe [C15-intersect-alias] FAILED: set(~'c' & ('a' | 'b' | 'c')) = %v, expected [2 3]; `&` with a possibly co-finite left operand is %s", got,
 			map[bool]string{true: "generated and flagged (VERIF_FINDINGS)", false: "avoided"}[findings]))
-		c.Rule += " AVOIDED CLASS (probe failed, [C25-closure-buf-alias]): intersections whose left operand may evaluate to a co-finite set (contains ~, a nonterminal or a named set leading to one) — " +
+		c.Rule += " AVOIDED CLASS (probe failed, [C15-intersect-alias]): intersections whose left operand may evaluate to a co-finite set (contains ~, a nonterminal or a named set leading to one) — " +
 			"the operands are swapped or the operator becomes |."
-		if findings {
-			c.Violate(fmt.Sprintf("[C25-closure-buf-alias] set(~'c' & ('a' | 'b' | 'c')) resolves to %v (terminals 2='a' 3='b' 4='c'), the definition gives [2 3]", got),
-				"[C25-closure-buf-alias] %generate w = set(~'c' & ('a' | 'b' | 'c')); S : 'a' S | 'b' ;")
+		{
+			c.Violate(fmt.Sprintf("[C15-intersect-alias] set(~'c' & ('a' | 'b' | 'c')) resolves to %v (terminals 2='a' 3='b' 4='c'), the definition gives [2 3]", got),
+				"[C15-intersect-alias] %generate w = set(~'c' & ('a' | 'b' | 'c')); S : 'a' S | 'b' ;")
 		}
 	}
 	if got, _ := c15ProbeSet("%generate a1 = set(b1);\n%generate b1 = set('c');\nS : 'a' S | 'b' ;\n", "a1"); fmt.Sprint(got) != "[4]" {
 		cfg.noFwdAlias = !findings
 		c.Notes = append(c.Notes, fmt.Sprintf("probe [C15-forward-alias] FAILED: `%%generate a1 = set(b1); %%generate b1 = set('c');` gives a1 = %v, expected [4]", got))
 		c.Rule += " AVOIDED CLASS (probe failed, [C15-forward-alias]): a %generate whose whole expression is the name of a set declared later (or its own name); written as `name | name` instead."
-		if findings {
+		{
 			c.Violate(fmt.Sprintf("[C15-forward-alias] `%%generate a1 = set(b1); %%generate b1 = set('c');` resolves a1 to %v (0 = eoi): the struct copy in collectDirectives pass 2 copies the still empty TokenSet of b1; expected [4]", got),
 				"[C15-forward-alias] %generate a1 = set(b1); %generate b1 = set('c'); S : 'a' S | 'b' ;")
 		}
@@ -885,7 +885,7 @@ func c15(c *Ctx) {
 		c.Notes = append(c.Notes, fmt.Sprintf("probe [C15-rearrange-shared] FAILED: `%%generate h = set(first N1); %%generate k = set(h | 'a'); S : 'b' set('d') N1; N1 : 'c';` gives h = %v, expected [4]", got))
 		c.Rule += " AVOIDED CLASS (probe failed, [C15-rearrange-shared]): grammars that have both an inline set(...) (the only construct of this generator that makes Expand insert a nonterminal and renumber) " +
 			"and a reference to a named set from another set expression; every grammar gets one of the two, chosen at random."
-		if findings {
+		{
 			c.Violate(fmt.Sprintf("[C15-rearrange-shared] Model.Rearrange renumbers the symbols of a named set once per top-level set that reaches it (TokenSet.ForEach has a fresh `seen` per call): "+
 				"`%%generate h = set(first N1); %%generate k = set(h | 'a'); S : 'b' set('d') N1; N1 : 'c';` resolves h to %v, the definition gives [4] ('c')", got),
 				"[C15-rearrange-shared] %generate h = set(first N1); %generate k = set(h | 'a'); S : 'b' set('d') N1 ; N1 : 'c' ;")
@@ -896,7 +896,7 @@ func c15(c *Ctx) {
 		cfg.noInlineRec = true // never generated in-process: the crash cannot be recovered from
 		c.Notes = append(c.Notes, "probe [C15-inline-recursive-crash] FAILED (child process died): `%generate r = set(r | 'a'); S : set(r) 'b';` — syntax.appendSetName recurses through named sets without a visited set")
 		c.Rule += " AVOIDED CLASS (child-process probe died, [C15-inline-recursive-crash]): an inline set(...) inside a rule that reaches a named set lying on a reference cycle."
-		if findings {
+		{
 			c.Violate("[C15-inline-recursive-crash] compiler.Compile dies with a stack overflow (fatal, not recoverable): syntax.appendSetName follows named-set references without a visited set when it names the nonterminal of an inline set",
 				"[C15-inline-recursive-crash] %generate r = set(r | 'a'); S : set(r) 'b' ;")
 		}
